@@ -110,9 +110,6 @@ m = {
     "checks": checks,
     "not_applicable": na,
     "notes": "All checks: exit 0 held on what was observed, exit 1 + VIOLATION line, exit 3 + INCONCLUSIVE line when too little was observed (not expected on the unchanged tree). VERIF_SEED selects the case lists.",
-    "not_applicable": [],
 }
-if not na:
-    del m["not_applicable"]
 json.dump(m, open(os.path.join(HERE, "MANIFEST.json"), "w"), indent=1)
 print("claimed:", sorted(CHECKS), "not applicable:", [x["property_id"] for x in na])
